@@ -175,7 +175,7 @@ class Caption:
     for its display.
     """
 
-    def __init__(self, start, end, nodes, style={}, layout_info=None):
+    def __init__(self, start, end, nodes, style=None, layout_info=None):
         """
         Initialize the Caption object
         :param start: The start time in microseconds
@@ -203,7 +203,8 @@ class Caption:
         self.start = start
         self.end = end
         self.nodes = nodes
-        self.style = style
+        # a fresh dict per caption: a `{}` default would be shared by all captions
+        self.style = {} if style is None else style
         self.layout_info = layout_info
 
     def is_empty(self):
@@ -306,14 +307,15 @@ class CaptionSet:
     by all the children.
     """
 
-    def __init__(self, captions, styles={}, layout_info=None):
+    def __init__(self, captions, styles=None, layout_info=None):
         """
         :param captions: A dictionary of the format {'language': CaptionList}
         :param styles: A dictionary with CSS-like styling rules
         :param Layout layout_info: A Layout object with the positioning info
         """
         self._captions = captions
-        self._styles = styles
+        # a fresh dict per caption set: a `{}` default would be shared by all sets
+        self._styles = {} if styles is None else styles
         self.layout_info = layout_info
 
     def set_captions(self, lang, captions):
